@@ -1,146 +1,310 @@
 -------------------------------- MODULE Core --------------------------------
 (***************************************************************************)
-(* Implementation-shaped specification of go-dcp's stream layer:           *)
-(*   couchbase/observer.go   (per-vBucket observer)                        *)
-(*   stream/stream.go        (offsets, dirty set, flag, Open/Close/...)    *)
-(*   stream/checkpoint.go    (Load, multi-step Save)                       *)
-(* One action = one thread running from the gate it is parked at to the    *)
-(* next gate (a gate is a point where the test rig can hold the real code: *)
-(* a call into the metadata store / the client / the consumer, or a vhook  *)
-(* point).  Every action has a label; Step(l) dispatches on it, so a TLC   *)
-(* behaviour is a schedule the Go driver can execute on the real code.     *)
-(* Every action also says which observable events the real code emits      *)
-(* while executing it (emit) - they drive the property monitor of Props.   *)
+(* Implementation-shaped specification of go-dcp's stream layer            *)
+(*   dcp.go                  Start / close (shutdown order)                *)
+(*   stream/stream.go        offsets, dirty set, flag, Open / Close /      *)
+(*                           Rebalance / rebalance / wait / listenEnd      *)
+(*   stream/checkpoint.go    Load, multi-step Save                         *)
+(*   couchbase/observer.go   per-vBucket observer                          *)
+(*                                                                         *)
+(* One action = one thread of the real code running from the gate it is    *)
+(* parked at to its next gate.  A gate is a point where the test rig can   *)
+(* hold the real code: a call into the metadata store / the client / the   *)
+(* consumer, or a vhook point (save.prelock, rb.prelock, wait.close,       *)
+(* wait.end).  Every action has a label; Step(l) dispatches on it, so a    *)
+(* TLC behaviour is a schedule that harness/drivers/core.go executes on    *)
+(* the real code.  Every action also states the observable events the real *)
+(* code emits while executing it (emitv) - they drive the property         *)
+(* monitors of Props.tla.                                                  *)
 (***************************************************************************)
 EXTENDS Props
 
 CONSTANTS
-  Hist,        \* [VB -> Seq(wire event)] : the server's history per vBucket (markers included)
+  InitLog,     \* [VB -> Seq(wire event)] : what the server already holds when the first process starts
+  MaxSeq,      \* server sequence numbers are 1..MaxSeq
+  Keys,        \* key classes the server uses for document events, subset of {"user","conn","txn"}
+  Kinds,       \* document / system kinds the server generates, subset of {"mut","del","exp","sys","adv"}
+  OldEvents,   \* BOOLEAN: the server also sends events whose CAS time is before skipUntil
+  BadEvents,   \* BOOLEAN: the server may send an event outside its announced snapshot
   FoUuid,      \* [VB -> Nat] : vbUUID the server answers stream requests with
   Savers,      \* driver threads that call Save()/Commit(), e.g. {"p","c"}
-  MaxSaves, MaxCrash, MaxAcks,
+  MaxSaves, MaxCrash, MaxAcks, MaxGen, MaxNotify, MaxEnds, MaxFail,
   AutoReset,   \* "earliest" | "latest"
+  Finite,      \* BOOLEAN: dcp.mode finite
+  AutoCkpt,    \* BOOLEAN: checkpoint.type auto (final save in close)
+  Infos,       \* membership values <<member, total>> the environment may publish
+  Info0,       \* membership in effect at start
+  EndCauses,   \* causes the server may end a stream with (besides "closed" after CloseStream)
+  Hold,        \* BOOLEAN: the consumer may block inside ConsumeEvent
+  AllowClose,  \* BOOLEAN: Close() may be called
+  Rollbacks,   \* BOOLEAN: the server may answer a stream request with a rollback
   FailSaves,   \* BOOLEAN: the metadata store may reject a save
-  Focus,       \* BOOLEAN: while a session is being opened nothing else is scheduled
+  Focus,       \* BOOLEAN: while a session is being opened or closed nothing else is scheduled
   Record,      \* BOOLEAN: hist carries predictions (events, projected state) besides the labels
-  Bugs         \* subset of {"F1","F7"}: model the code as it was before the corresponding fix: commit
+  Gaps,        \* subset of {"CloseDuringReopen", "LateWait"}: known findings whose interleavings are explored (see known_findings.json);
+               \* without the name the model does not let dcp.close overlap the re-open of a rebalance
+  Bugs         \* subset of {"F1","F7","F2","F5"}: model the code as it was BEFORE the corresponding fix: commit
 
 VARIABLES
-  up, ncrash, nsaves, nacks,
-  wire, store,
-  \* observer (per vb)
-  osnap, ouuid, ocatch, oclosed, ocnt,
-  \* stream
-  offs, dirty, flag, rng, open, opened,
+  \* ---- environment
+  up, slog, wire, store, info, cnt,
+  \* ---- observers (per vb)
+  osnap, ouuid, ocatch, oclosed, oendclosed, ocnt,
+  \* ---- stream
+  offs, dirty, flag, rng, open, obsNil, active, balancing, cwc, finClose, finEnd, rebalances, stopped,
   ctxs,
-  \* threads
-  mpc, spc, sv, slock,
-  \* observable events emitted by the last step; monitor; schedule with predictions
+  \* ---- channels, wait goroutines, timers, locks
+  tokC, tokE, waits, wpark, timers, cur, rlock, slock, cgen,
+  \* ---- threads
+  mpc, dcwc, opener, opc, opened, live, foleft, clo, spc, sv, rpc, dpc, reop,
+  \* ---- observable events emitted by the last step; monitor; schedule
   emitv, obs, hist
 
-envVars  == <<up, ncrash, nsaves, nacks, wire, store>>
-obsvVars == <<osnap, ouuid, ocatch, oclosed, ocnt>>
-strVars  == <<offs, dirty, flag, rng, open, opened, ctxs>>
-thrVars  == <<mpc, spc, sv, slock>>
-vars     == <<envVars, obsvVars, strVars, thrVars, emitv, obs, hist>>
-view     == <<envVars, obsvVars, strVars, thrVars, obs>>
+envVars  == <<up, slog, wire, store, info, cnt>>
+obsvVars == <<osnap, ouuid, ocatch, oclosed, oendclosed, ocnt>>
+strVars  == <<offs, dirty, flag, rng, open, obsNil, active, balancing, cwc, finClose, finEnd, rebalances, stopped, ctxs>>
+synVars  == <<tokC, tokE, waits, wpark, timers, cur, rlock, slock, cgen>>
+thrVars  == <<mpc, dcwc, opener, opc, opened, live, foleft, clo, spc, sv, rpc, dpc, reop>>
+vars     == <<envVars, obsvVars, strVars, synVars, thrVars, emitv, obs, hist>>
+view     == <<envVars, obsvVars, strVars, synVars, thrVars, obs>>
 
 NoSnap == <<0 - 1, 0 - 1>>
 Ev(k, q, s, e, key, old) == [k |-> k, q |-> q, s |-> s, e |-> e, key |-> key, old |-> old]
+RbThreads == {"bus", "api", "tmr"}
+SaveThreads == Savers \cup {"main"}
 
-HighOf(v) == MaxOr({Hist[v][i].q : i \in DOMAIN Hist[v]}, 0)
+HighOf(v) == MaxOr({slog[v][i].q : i \in DOMAIN slog[v]}, 0)
 
-\* what the server streams for a request that resumes at seqno q: everything above q,
-\* each surviving event preceded by (a copy of) the marker of its snapshot
-RECURSIVE WireFrom(_, _, _)
-WireFrom(h, q, pendingMark) ==
-  IF h = <<>> THEN <<>>
+\* last snapshot the server announced in its log: <<s, e>> (NoSnap if none)
+RECURSIVE LastSnap(_)
+LastSnap(h) == IF h = <<>> THEN NoSnap
+               ELSE LET x == h[Len(h)] IN
+                    IF x.k = "mark" THEN <<x.s, x.e>>
+                    ELSE IF x.k = "adv" THEN <<x.q, x.q>>
+                    ELSE LastSnap(SubSeq(h, 1, Len(h) - 1))
+
+\* what the server streams for a request that resumes at seqno q: everything above q, each surviving
+\* event preceded by (a copy of) the marker of its snapshot; a snapshot that is still open (its end lies
+\* above everything sent so far) is announced again on the new stream
+RECURSIVE WireFromR(_, _, _, _)
+WireFromR(h, q, pendingMark, hi) ==
+  IF h = <<>> THEN (IF pendingMark # <<>> /\ pendingMark[1].e > hi THEN pendingMark ELSE <<>>)
   ELSE LET x == Head(h) IN
-       IF x.k = "mark" THEN WireFrom(Tail(h), q, <<x>>)
-       ELSE IF x.q <= q THEN WireFrom(Tail(h), q, pendingMark)
-       ELSE pendingMark \o <<x>> \o WireFrom(Tail(h), q, <<>>)
+       IF x.k = "mark" THEN WireFromR(Tail(h), q, <<x>>, hi)
+       ELSE IF x.q <= q THEN WireFromR(Tail(h), q, pendingMark, hi)
+       ELSE pendingMark \o <<x>> \o WireFromR(Tail(h), q, <<>>, hi)
+WireFrom(h, q, pm) == WireFromR(h, q, pm, MaxOr({h[i].q : i \in DOMAIN h}, 0))
 
+\* new events the server may append to the history of v
+Gen(v) ==
+  LET hi == HighOf(v)
+      sn == LastSnap(slog[v])
+      lastIsMark == slog[v] # <<>> /\ slog[v][Len(slog[v])].k = "mark"
+      inside == sn # NoSnap /\ hi < sn[2]
+      docs(q) == {Ev(k, q, 0, 0, key, old) : k \in Kinds \cap DocKinds, key \in Keys,
+                                              old \in (IF OldEvents THEN BOOLEAN ELSE {FALSE})}
+      syss(q) == {Ev("sys", q, 0, 0, "", FALSE) : k \in Kinds \cap {"sys"}}
+  IN
+  IF hi >= MaxSeq THEN {}
+  ELSE (IF inside THEN docs(hi + 1) \cup syss(hi + 1) ELSE {})
+       \cup (IF ~inside /\ ~lastIsMark
+             THEN {Ev("mark", 0, hi + 1, e, "", FALSE) : e \in (hi + 1)..(IF hi + 2 <= MaxSeq THEN hi + 2 ELSE hi + 1)}
+             ELSE {})
+       \cup (IF "adv" \in Kinds /\ ~lastIsMark THEN {Ev("adv", hi + 1, 0, 0, "", FALSE)} ELSE {})
+       \cup (IF BadEvents /\ ~inside /\ ~lastIsMark /\ sn # NoSnap THEN {Ev("mut", hi + 1, 0, 0, "user", FALSE)} ELSE {})
+
+\* helpers.ChunkSlice + VBucketDiscovery.Get: contiguous range of member m of t over 1..NVB
+ChunkLo(t, m) == LET q == NVB \div t  r == NVB % t IN (m - 1) * q + (IF m - 1 < r THEN m - 1 ELSE r) + 1
+ChunkHi(t, m) == LET q == NVB \div t  r == NVB % t IN m * q + (IF m < r THEN m ELSE r)
+RangeOf(i) == <<ChunkLo(i[2], i[1]), ChunkHi(i[2], i[1])>>
 InRange(v) == rng[1] <= v /\ v <= rng[2]
 RangeSet == {v \in VB : InRange(v)}
+RangeOfSet(i) == {v \in VB : RangeOf(i)[1] <= v /\ v <= RangeOf(i)[2]}
 
+\* known finding F8: dcp.close and the re-open of a rebalance (timer goroutine) are not coordinated
+GapReopen == "CloseDuringReopen" \in Gaps
+\* known finding F6: a wait goroutine that received the token of a rebalance's Close but is scheduled only after
+\* that rebalance has re-opened the stream reads balancing = false and stops the client; without the name the
+\* model lets a parked wait goroutine finish before the re-open timer fires
+GapLateWait == "LateWait" \in Gaps
 -----------------------------------------------------------------------------
-SaverInit == [dump |-> [v \in VB |-> NoOff], ddirty |-> {}, wr |-> {},
-              olive |-> TRUE, osnapm |-> [v \in VB |-> NoOff],
-              dlive |-> TRUE, dsnapm |-> {}]
+SaverInit == [dump |-> [v \in VB |-> NoOff], ddirty |-> {}, wr |-> {}, gen |-> 0,
+              dlive |-> TRUE, dsnapm |-> {}, olive |-> TRUE, osnapm |-> [v \in VB |-> NoOff]]
+CntInit == [crash |-> 0, saves |-> 0, acks |-> 0, notify |-> 0, ends |-> 0, fail |-> 0]
+NoClose == [on |-> FALSE, who |-> "none", left |-> {}]
 
 Init ==
-  /\ up = FALSE /\ ncrash = 0 /\ nsaves = 0 /\ nacks = 0
-  /\ wire = [v \in VB |-> <<>>]
-  /\ store = [v \in VB |-> NoOff]
+  /\ up = FALSE /\ slog = InitLog /\ wire = [v \in VB |-> <<>>] /\ store = [v \in VB |-> NoOff]
+  /\ info = Info0 /\ cnt = CntInit
   /\ osnap = [v \in VB |-> NoSnap] /\ ouuid = [v \in VB |-> 0] /\ ocatch = [v \in VB |-> 0 - 1]
-  /\ oclosed = [v \in VB |-> FALSE] /\ ocnt = [v \in VB |-> <<0, 0, 0>>]
-  /\ offs = [v \in VB |-> NoOff] /\ dirty = {} /\ flag = FALSE /\ rng = <<1, NVB>>
-  /\ open = FALSE /\ opened = {} /\ ctxs = <<>>
-  /\ mpc = "off" /\ spc = [t \in Savers |-> "idle"] /\ sv = [t \in Savers |-> SaverInit] /\ slock = "free"
+  /\ oclosed = [v \in VB |-> FALSE] /\ oendclosed = [v \in VB |-> FALSE] /\ ocnt = [v \in VB |-> <<0, 0, 0>>]
+  /\ offs = [v \in VB |-> NoOff] /\ dirty = {} /\ flag = FALSE /\ rng = <<1, 0>>
+  /\ open = FALSE /\ obsNil = TRUE /\ active = 0 /\ balancing = FALSE /\ cwc = FALSE
+  /\ finClose = FALSE /\ finEnd = FALSE /\ rebalances = 0 /\ stopped = FALSE /\ ctxs = <<>>
+  /\ tokC = 0 /\ tokE = 0 /\ waits = 0 /\ wpark = <<>> /\ timers = <<>> /\ cur = 0
+  /\ rlock = FALSE /\ slock = {} /\ cgen = 0
+  /\ mpc = "off" /\ dcwc = FALSE /\ opener = "none" /\ opc = "none" /\ opened = {} /\ live = {} /\ foleft = 0
+  /\ clo = NoClose
+  /\ spc = [t \in SaveThreads |-> "idle"] /\ sv = [t \in SaveThreads |-> SaverInit]
+  /\ rpc = [t \in RbThreads |-> "idle"] /\ dpc = [v \in VB |-> "idle"] /\ reop = {}
   /\ emitv = <<>> /\ obs = ObsInit /\ hist = <<>>
 
-\* ---------------------------------------------------------------------------
-\* every action says which observable events the real code emits while executing it
 Emit(es) == emitv' = es
-EmitS(es) == emitv' = es
+CB(n) == [ev |-> "Callback", name |-> n]
 
-Busy == Focus /\ mpc \notin {"idle", "off"}
+\* nothing but the session being opened / closed is scheduled (prunes interleavings, see DESIGN 5)
+FocusBusy == Focus /\ (opc # "none" \/ clo.on)
+\* a wait goroutine that received its token runs before anything else happens (unless known finding F6 is explored)
+Prompt == "LateWait" \in Gaps \/ wpark = <<>>
+Busy == FocusBusy \/ ~Prompt
 
-\* ---------------------------------------------------------------------------
-\* start-up : main thread runs stream.Open()
-\* Boot: process starts, Open() runs to the metadata.Load gate (stream.go Open l.222-249, checkpoint.go Load l.116-120)
-Boot ==
-  /\ ~up /\ mpc = "off"
-  /\ up' = TRUE /\ mpc' = "load"
-  /\ rng' = <<1, NVB>> /\ opened' = {} /\ open' = FALSE
-  /\ offs' = [v \in VB |-> NoOff] /\ dirty' = {} /\ flag' = FALSE /\ ctxs' = <<>>
+Die(es) == /\ up' = FALSE /\ mpc' = "off" /\ Emit(es \o <<[ev |-> "Died"]>>)
+
+-----------------------------------------------------------------------------
+(* tokens and wait goroutines (stream.go wait l.401-412, Close l.447-449, listenEnd l.215-218)       *)
+(* A put hands the token to a wait goroutine blocked in select, which then parks at vhook            *)
+(* wait.close / wait.end; with no waiter the token stays in the 1-buffered channel.                  *)
+Put(kind, tC, tE, w, wp) ==   \* returns <<tokC', tokE', waits', wpark', blocked>>
+  IF w > 0 THEN <<tC, tE, w - 1, Append(wp, kind), FALSE>>
+  ELSE IF kind = "close" THEN (IF tC = 0 THEN <<1, tE, w, wp, FALSE>> ELSE <<tC, tE, w, wp, TRUE>>)
+  ELSE (IF tE = 0 THEN <<tC, 1, w, wp, FALSE>> ELSE <<tC, tE, w, wp, TRUE>>)
+\* a new wait goroutine starts: it takes a buffered token at once if there is one (close first)
+Spawn(tC, tE, w, wp) ==
+  IF tC = 1 THEN <<0, tE, w, Append(wp, "close")>>
+  ELSE IF tE = 1 THEN <<tC, 0, w, Append(wp, "end")>>
+  ELSE <<tC, tE, w + 1, wp>>
+
+-----------------------------------------------------------------------------
+(* stream.Open (l.222-272) + checkpoint.Load (l.116-200), run by the main thread (dcp.Start) or by   *)
+(* the timer goroutine (stream.rebalance)                                                            *)
+
+ObsReset ==
   /\ osnap' = [v \in VB |-> NoSnap] /\ ouuid' = [v \in VB |-> 0] /\ ocatch' = [v \in VB |-> 0 - 1]
-  /\ oclosed' = [v \in VB |-> FALSE] /\ ocnt' = [v \in VB |-> <<0, 0, 0>>]
-  /\ spc' = [t \in Savers |-> "idle"] /\ sv' = [t \in Savers |-> SaverInit] /\ slock' = "free"
+  /\ oclosed' = [v \in VB |-> FALSE] /\ oendclosed' = [v \in VB |-> FALSE] /\ ocnt' = [v \in VB |-> <<0, 0, 0>>]
+
+\* first part of Open, up to the metadata.Load gate; who = "main" | "timer"
+OpenBeginEvs == <<CB("BeforeStreamStart"), [ev |-> "Load", vbs |-> SortedSeq(RangeOfSet(info))]>>
+OpenBegin(who) ==
+  /\ opener' = who /\ opc' = "load" /\ opened' = {}
+  /\ finClose' = FALSE /\ finEnd' = FALSE
+  /\ rng' = RangeOf(info) /\ active' = Cardinality(RangeOfSet(info))
+  /\ cgen' = cgen + 1
+
+\* Boot: the process starts; dcp.Start runs into stream.Open up to metadata.Load
+Boot ==
+  /\ ~up /\ mpc = "off" /\ cgen < MaxGen
+  /\ up' = TRUE /\ mpc' = "starting" /\ dcwc' = FALSE
+  /\ OpenBegin("main")
+  /\ offs' = [v \in VB |-> NoOff] /\ dirty' = {} /\ flag' = FALSE /\ ctxs' = <<>>
+  /\ open' = FALSE /\ obsNil' = TRUE /\ balancing' = FALSE /\ cwc' = FALSE /\ rebalances' = 0 /\ stopped' = FALSE
+  /\ ObsReset
+  /\ tokC' = 0 /\ tokE' = 0 /\ waits' = 0 /\ wpark' = <<>> /\ timers' = <<>> /\ cur' = 0
+  /\ rlock' = FALSE /\ slock' = {}
+  /\ foleft' = 0 /\ clo' = NoClose /\ live' = {}
+  /\ spc' = [t \in SaveThreads |-> "idle"] /\ sv' = [t \in SaveThreads |-> SaverInit]
+  /\ rpc' = [t \in RbThreads |-> "idle"] /\ dpc' = [v \in VB |-> "idle"] /\ reop' = {}
   /\ wire' = [v \in VB |-> <<>>]
-  /\ Emit(<<[ev |-> "Boot"], [ev |-> "Callback", name |-> "BeforeStreamStart"],
-            [ev |-> "Load", vbs |-> SortedSeq(VB)]>>)
-  /\ UNCHANGED <<ncrash, nsaves, nacks, store>>
+  /\ Emit(<<[ev |-> "Boot", auto |-> AutoCkpt, member |-> info[1], total |-> info[2]]>> \o OpenBeginEvs)
+  /\ UNCHANGED <<slog, store, info, cnt>>
 
-\* metadata.Load returns the stored documents; runs to the GetVBucketSeqNos gate (checkpoint.go l.120-128)
-LoadRet ==
-  /\ up /\ mpc = "load" /\ mpc' = "seqnos"
-  /\ Emit(<<[ev |-> "SeqNosReq"]>>)
-  /\ UNCHANGED <<envVars, obsvVars, strVars, spc, sv, slock>>
+\* metadata.Load returns; runs to the GetVBucketSeqNos gate; failure => panic in Load
+LoadRet(ok) ==
+  /\ up /\ opc = "load" /\ Prompt
+  /\ (~ok => cnt.fail < MaxFail)
+  /\ UNCHANGED <<slog, wire, store, info, obsvVars, strVars, synVars, dcwc, opener, opened, live, foleft, clo, spc, sv, rpc, dpc, reop>>
+  /\ IF ok THEN /\ opc' = "seqnos" /\ Emit(<<[ev |-> "SeqNosReq"]>>) /\ UNCHANGED <<up, mpc, cnt>>
+     ELSE /\ opc' = "none" /\ cnt' = [cnt EXCEPT !.fail = @ + 1] /\ Die(<<[ev |-> "Fail", what |-> "Load"]>>)
 
-\* positions computed by checkpoint.Load (l.134-199)
+Exists == \E w \in RangeSet : store[w] # NoOff                 \* fake backend: "exist" of metadata.Load
+LatestBranch == ~Exists /\ AutoReset = "latest"
+EndOf(v) == IF Finite THEN HighOf(v) ELSE MAXSEQ                \* offset.InitializeLatestSeqNo
 LoadedOff(v) ==
-  IF (\A w \in VB : store[w] = NoOff) /\ AutoReset = "latest"
-  THEN Off(FoUuid[v], HighOf(v), HighOf(v), HighOf(v))
+  IF LatestBranch THEN Off(FoUuid[v], HighOf(v), HighOf(v), HighOf(v))
   ELSE IF store[v] = NoOff THEN ZeroOff ELSE store[v]
-LatestBranch == (\A w \in VB : store[w] = NoOff) /\ AutoReset = "latest"
+Ahead == ~LatestBranch /\ \E v \in RangeSet : store[v] # NoOff /\ store[v].seq > HighOf(v)
 
-\* GetVBucketSeqNos returns; offsets are built; one goroutine per vb reaches client.OpenStream
-SeqNosRet ==
-  /\ up /\ mpc = "seqnos" /\ mpc' = "opening"
-  /\ offs' = [v \in VB |-> LoadedOff(v)]
-  /\ dirty' = IF LatestBranch THEN {v \in VB : HighOf(v) # 0} ELSE {}
-  /\ flag' = (LatestBranch /\ \E v \in VB : HighOf(v) # 0)
-  /\ Emit([v \in VB |-> [ev |-> "OpenReq", vb |-> v, off |-> LoadedOff(v), end |-> MAXSEQ]])
-  /\ UNCHANGED <<envVars, obsvVars, rng, open, opened, ctxs, spc, sv, slock>>
+\* observers are created and one goroutine per vb reaches client.OpenStream (l.251-263)
+SeqNosEv(ok) == [ev |-> "SeqNos", ok |-> ok, high |-> [v \in VB |-> HighOf(v)], latest |-> AutoReset = "latest"]
+StartOpening(pre) ==
+  /\ opc' = "opening"
+  /\ ObsReset /\ obsNil' = FALSE
+  /\ live' = {}      \* streams of an earlier session deliver to their own (closed) observers: no longer modelled
+  /\ Emit(pre \o [i \in 1..Cardinality(RangeSet) |->
+             LET v == rng[1] + i - 1 IN [ev |-> "OpenReq", vb |-> v, off |-> offs'[v], end |-> EndOf(v)]])
 
-\* the server accepts the stream request of v (client.go OpenStream callback: SetVbUUID)
-OpenRet(v) ==
-  /\ up /\ mpc = "opening" /\ v \in VB \ opened
-  /\ opened' = opened \cup {v}
-  /\ ouuid' = [ouuid EXCEPT ![v] = FoUuid[v]]
-  /\ wire' = [wire EXCEPT ![v] = WireFrom(Hist[v], offs[v].seq, <<>>)]
-  /\ UNCHANGED <<up, ncrash, nsaves, nacks, store, osnap, ocatch, oclosed, ocnt,
-                 offs, dirty, flag, rng, ctxs, spc, sv, slock>>
-  /\ IF opened' = VB
-     THEN /\ mpc' = "idle" /\ open' = TRUE
-          /\ EmitS(<<[ev |-> "OpenRet", vb |-> v, ok |-> TRUE, uuid |-> FoUuid[v], rollback |-> FALSE, f |-> 0],
-                     [ev |-> "Callback", name |-> "AfterStreamStart"]>>)
-     ELSE /\ UNCHANGED <<mpc, open>>
-          /\ Emit(<<[ev |-> "OpenRet", vb |-> v, ok |-> TRUE, uuid |-> FoUuid[v], rollback |-> FALSE, f |-> 0]>>)
+\* GetVBucketSeqNos returns; offsets are built
+SeqNosRet(ok) ==
+  /\ up /\ opc = "seqnos" /\ Prompt
+  /\ (~ok => cnt.fail < MaxFail)
+  /\ UNCHANGED <<slog, wire, store, info, rng, open, active, balancing, cwc, finClose, finEnd, rebalances, stopped,
+                 ctxs, synVars, dcwc, opener, opened, clo, spc, sv, rpc, dpc, reop>>
+  /\ IF ~ok THEN /\ opc' = "none" /\ cnt' = [cnt EXCEPT !.fail = @ + 1] /\ Die(<<SeqNosEv(FALSE)>>)
+                 /\ UNCHANGED <<obsvVars, offs, dirty, flag, obsNil, foleft, live>>
+     ELSE IF Ahead                                     \* checkpoint beyond the vBucket's high seqno: panic
+     THEN /\ opc' = "none" /\ Die(<<SeqNosEv(TRUE)>>) /\ UNCHANGED <<cnt, obsvVars, offs, dirty, flag, obsNil, foleft, live>>
+     ELSE /\ UNCHANGED <<up, mpc, cnt>>
+          /\ offs' = [v \in VB |-> IF InRange(v) THEN LoadedOff(v) ELSE NoOff]
+          /\ dirty' = IF LatestBranch THEN {v \in RangeSet : HighOf(v) # 0} ELSE {}
+          /\ flag' = (LatestBranch /\ \E v \in RangeSet : HighOf(v) # 0)
+          /\ IF LatestBranch
+             THEN /\ opc' = "folog" /\ foleft' = Cardinality(RangeSet) /\ Emit(<<SeqNosEv(TRUE)>>)
+                  /\ UNCHANGED <<obsvVars, obsNil, live>>
+             ELSE /\ StartOpening(<<SeqNosEv(TRUE)>>) /\ UNCHANGED foleft
 
-\* ---------------------------------------------------------------------------
-\* data path : the dispatch goroutine of v hands the next wire event to the observer
+\* GetFailOverLogs of one more vb returns (latest branch only; sequential, l.141-168)
+FoLogRet(ok) ==
+  /\ up /\ opc = "folog" /\ foleft > 0 /\ Prompt
+  /\ (~ok => cnt.fail < MaxFail)
+  /\ UNCHANGED <<slog, wire, store, info, offs, dirty, flag, rng, open, active, balancing, cwc, finClose, finEnd,
+                 rebalances, stopped, ctxs, synVars, dcwc, opener, opened, clo, spc, sv, rpc, dpc, reop>>
+  /\ IF ~ok THEN /\ opc' = "none" /\ cnt' = [cnt EXCEPT !.fail = @ + 1] /\ Die(<<[ev |-> "Fail", what |-> "FoLog"]>>)
+                 /\ UNCHANGED <<obsvVars, obsNil, foleft, live>>
+     ELSE /\ UNCHANGED <<up, mpc, cnt>>
+          /\ foleft' = foleft - 1
+          /\ IF foleft = 1 THEN StartOpening(<<>>)
+             ELSE /\ Emit(<<>>) /\ UNCHANGED <<opc, obsvVars, obsNil, live>>
+
+\* the last stream is open: rest of Open (l.265-271) and, for the timer goroutine, of rebalance (l.318-322)
+OpenRetEv(v, ok, rb, f) == [ev |-> "OpenRet", vb |-> v, ok |-> ok, uuid |-> IF ok THEN FoUuid[v] ELSE 0,
+                            rollback |-> rb, f |-> f]
+FinishOpen(pre) ==
+  LET sp == Spawn(tokC, tokE, waits, wpark) IN
+  /\ opc' = "none" /\ open' = TRUE
+  /\ tokC' = sp[1] /\ tokE' = sp[2] /\ waits' = sp[3] /\ wpark' = sp[4]
+  /\ IF opener = "main"
+     THEN /\ mpc' = "running"
+          /\ Emit(pre \o <<CB("AfterStreamStart")>>)
+          /\ UNCHANGED <<rebalances, balancing, rlock>>
+     ELSE /\ rebalances' = rebalances + 1 /\ balancing' = FALSE /\ rlock' = FALSE
+          /\ Emit(pre \o <<CB("AfterStreamStart"), CB("AfterRebalanceEnd")>>)
+          /\ UNCHANGED mpc
+  /\ opener' = "none"
+
+\* the server answers the stream request of v: res = "ok" | "err" | "rb" (rolled back to r, see client.go l.600-730)
+OpenRet(v, res, r) ==
+  /\ up /\ opc = "opening" /\ v \in RangeSet \ opened /\ Prompt
+  /\ (res = "err" => cnt.fail < MaxFail)
+  /\ (res = "rb" => Rollbacks /\ r <= offs[v].seq /\ offs[v].seq > 0)
+  /\ (res # "rb" => r = 0)
+  /\ UNCHANGED <<slog, store, info, osnap, oclosed, oendclosed, ocnt, offs, dirty, flag, rng, obsNil, active, cwc,
+                 finClose, finEnd, stopped, ctxs, timers, cur, slock, cgen, dcwc, foleft, clo, spc, sv, rpc, dpc, reop>>
+  /\ IF res = "err"                                   \* openAllStreams: panic in the goroutine
+     THEN /\ cnt' = [cnt EXCEPT !.fail = @ + 1] /\ opc' = "none"
+          /\ Die(<<OpenRetEv(v, FALSE, FALSE, 0)>>)
+          /\ UNCHANGED <<wire, ouuid, ocatch, open, balancing, rebalances, tokC, tokE, waits, wpark, rlock, opener,
+                         opened, live>>
+     ELSE /\ UNCHANGED <<up, cnt>>
+          /\ opened' = opened \cup {v} /\ live' = live \cup {v}
+          /\ ouuid' = [ouuid EXCEPT ![v] = FoUuid[v]]
+          /\ ocatch' = [ocatch EXCEPT ![v] = IF res = "rb" THEN offs[v].seq ELSE 0 - 1]
+          /\ wire' = [wire EXCEPT ![v] = WireFrom(slog[v], IF res = "rb" THEN r ELSE offs[v].seq, <<>>)]
+          /\ IF opened' = RangeSet
+             THEN FinishOpen(<<OpenRetEv(v, TRUE, res = "rb", IF res = "rb" THEN offs[v].seq ELSE 0)>>)
+             ELSE /\ Emit(<<OpenRetEv(v, TRUE, res = "rb", IF res = "rb" THEN offs[v].seq ELSE 0)>>)
+                  /\ UNCHANGED <<mpc, open, balancing, rebalances, tokC, tokE, waits, wpark, rlock, opener, opc>>
+
+-----------------------------------------------------------------------------
+(* data path: the dispatch goroutine of v hands the next wire event to the observer                  *)
 Moves(v, f) == InRange(v) /\ ~(offs[v] # NoOff /\ offs[v].seq > f.seq)      \* setOffset l.88-93
 TrackEvs(v, f) == IF Moves(v, f) THEN <<[ev |-> "Track", vb |-> v, off |-> f]>> ELSE <<>>
 SetOD(v, f, mk) ==
@@ -164,186 +328,512 @@ Catch(v, q) == IF ocatch[v] < 0 THEN <<FALSE, 0 - 1>>
                ELSE <<TRUE, ocatch[v]>>
 InSnap(v, q) == osnap[v] # NoSnap /\ osnap[v][1] <= q /\ q <= osnap[v][2]
 
-Die(es) ==   \* fail-stop: the process is gone
-  /\ up' = FALSE /\ mpc' = "off"
-  /\ Emit(es \o <<[ev |-> "Died"]>>)
+\* candidates for the next event on the stream of v
+NextEvents(v) == IF wire[v] # <<>> THEN {Head(wire[v])} ELSE Gen(v)
 
-Push(v) ==
-  /\ up /\ ~Busy /\ v \in opened /\ wire[v] # <<>>
-  /\ UNCHANGED <<ncrash, nsaves, nacks, store, ouuid, oclosed, rng, open, opened, spc, sv, slock>>
-  /\ LET x == Head(wire[v])
-         f == Off(ouuid[v], x.q, osnap[v][1], osnap[v][2])
-     IN
-     /\ wire' = [wire EXCEPT ![v] = Tail(@)]
-     /\ CASE x.k = "mark" ->                       \* SnapshotMarker l.157-170
-               /\ osnap' = [osnap EXCEPT ![v] = <<x.s, x.e>>]
-               /\ UNCHANGED <<up, mpc, ocatch, ocnt, offs, dirty, flag, ctxs>>
-               /\ EmitS(<<SentEv(v, x), PushedEv(v)>>)
-          [] x.k = "adv" ->                        \* SeqNoAdvanced l.414-437 (control: no catch-up)
-               LET g == Off(ouuid[v], x.q, x.q, x.q) IN
-               /\ osnap' = [osnap EXCEPT ![v] = <<x.q, x.q>>]
-               /\ UNCHANGED <<up, mpc, ocatch, ocnt, ctxs>>
-               /\ IF oclosed[v] THEN UNCHANGED <<offs, dirty, flag>> /\ EmitS(<<SentEv(v, x), PushedEv(v)>>)
-                  ELSE SetOffset(v, g, TRUE) /\ EmitS(<<SentEv(v, x)>> \o TrackEvs(v, g) \o <<PushedEv(v)>>)
-          [] x.k = "sys" ->                        \* CreateCollection ... l.284-406
-               LET c == Catch(v, x.q) IN
-               /\ ocatch' = [ocatch EXCEPT ![v] = c[2]]
-               /\ UNCHANGED <<osnap, ocnt, ctxs>>
-               /\ IF c[1] THEN /\ UNCHANGED <<up, mpc, offs, dirty, flag>>
-                               /\ EmitS(<<SentEv(v, x), PushedEv(v)>>)
-                  ELSE IF ~InSnap(v, x.q) THEN UNCHANGED <<offs, dirty, flag>> /\ Die(<<SentEv(v, x)>>)
-                  ELSE IF oclosed[v] THEN /\ UNCHANGED <<up, mpc, offs, dirty, flag>>
-                                          /\ EmitS(<<SentEv(v, x), PushedEv(v)>>)
-                  ELSE /\ SetOffset(v, f, TRUE)
-                       /\ UNCHANGED <<up, mpc>>
-                       /\ EmitS(<<SentEv(v, x)>> \o TrackEvs(v, f) \o <<PushedEv(v)>>)
-          [] OTHER ->                              \* Mutation / Deletion / Expiration l.185-270
-               LET c == Catch(v, x.q) IN
-               /\ ocatch' = [ocatch EXCEPT ![v] = c[2]]
-               /\ UNCHANGED osnap
-               /\ IF c[1] \/ x.old
-                  THEN /\ UNCHANGED <<up, mpc, offs, dirty, flag, ocnt, ctxs>>
-                       /\ EmitS(<<SentEv(v, x), PushedEv(v)>>)
-                  ELSE IF ~InSnap(v, x.q) THEN UNCHANGED <<offs, dirty, flag, ocnt, ctxs>> /\ Die(<<SentEv(v, x)>>)
-                  ELSE /\ ocnt' = [ocnt EXCEPT ![v] = Bump(@, x.k)]
-                       /\ UNCHANGED <<up, mpc>>
-                       /\ IF oclosed[v]
-                          THEN /\ UNCHANGED <<offs, dirty, flag, ctxs>>
-                               /\ EmitS(<<SentEv(v, x), PushedEv(v)>>)
-                          ELSE IF Reserved(x)       \* stream.go waitAndForward l.118-121
-                          THEN /\ SetOffset(v, f, FALSE)
-                               /\ UNCHANGED ctxs
-                               /\ EmitS(<<SentEv(v, x)>> \o TrackEvs(v, f) \o <<PushedEv(v)>>)
-                          ELSE /\ ctxs' = Append(ctxs, [vb |-> v, off |-> f])
-                               /\ UNCHANGED <<offs, dirty, flag>>
-                               /\ EmitS(<<SentEv(v, x),
-                                          [ev |-> "Consume", vb |-> v, k |-> x.k, q |-> x.q, key |-> x.key, off |-> f],
-                                          PushedEv(v)>>)
+Push(v, x, hold) ==
+  /\ up /\ ~Busy /\ v \in live /\ dpc[v] = "idle" /\ v \notin reop
+  /\ x \in NextEvents(v)
+  /\ (hold => Hold)
+  /\ UNCHANGED <<store, info, cnt, ouuid, oclosed, oendclosed, rng, open, obsNil, active, balancing, cwc, finClose,
+                 finEnd, rebalances, stopped, synVars, dcwc, opener, opc, opened, live, foleft, clo, spc, sv, rpc, reop>>
+  /\ IF wire[v] # <<>> THEN wire' = [wire EXCEPT ![v] = Tail(@)] /\ UNCHANGED slog
+     ELSE slog' = [slog EXCEPT ![v] = Append(@, x)] /\ UNCHANGED wire
+  /\ LET f == Off(ouuid[v], x.q, osnap[v][1], osnap[v][2]) IN
+     CASE x.k = "mark" ->                       \* SnapshotMarker l.157-170
+            /\ osnap' = [osnap EXCEPT ![v] = <<x.s, x.e>>]
+            /\ UNCHANGED <<up, mpc, ocatch, ocnt, offs, dirty, flag, ctxs, dpc>>
+            /\ Emit(<<SentEv(v, x), PushedEv(v)>>)
+       [] x.k = "adv" ->                        \* SeqNoAdvanced l.414-437 (control: no catch-up)
+            LET g == Off(ouuid[v], x.q, x.q, x.q) IN
+            /\ osnap' = [osnap EXCEPT ![v] = <<x.q, x.q>>]
+            /\ UNCHANGED <<up, mpc, ocatch, ocnt, ctxs, dpc>>
+            /\ IF oclosed[v] THEN UNCHANGED <<offs, dirty, flag>> /\ Emit(<<SentEv(v, x), PushedEv(v)>>)
+               ELSE SetOffset(v, g, TRUE) /\ Emit(<<SentEv(v, x)>> \o TrackEvs(v, g) \o <<PushedEv(v)>>)
+       [] x.k = "sys" ->                        \* CreateCollection ... l.284-406
+            LET c == Catch(v, x.q) IN
+            /\ ocatch' = [ocatch EXCEPT ![v] = c[2]]
+            /\ UNCHANGED <<osnap, ocnt, ctxs, dpc>>
+            /\ IF c[1] THEN /\ UNCHANGED <<up, mpc, offs, dirty, flag>>
+                            /\ Emit(<<SentEv(v, x), PushedEv(v)>>)
+               ELSE IF ~InSnap(v, x.q) THEN UNCHANGED <<offs, dirty, flag>> /\ Die(<<SentEv(v, x)>>)
+               ELSE IF oclosed[v] THEN /\ UNCHANGED <<up, mpc, offs, dirty, flag>>
+                                       /\ Emit(<<SentEv(v, x), PushedEv(v)>>)
+               ELSE /\ SetOffset(v, f, TRUE)
+                    /\ UNCHANGED <<up, mpc>>
+                    /\ Emit(<<SentEv(v, x)>> \o TrackEvs(v, f) \o <<PushedEv(v)>>)
+       [] OTHER ->                              \* Mutation / Deletion / Expiration l.185-270
+            LET c == Catch(v, x.q) IN
+            /\ ocatch' = [ocatch EXCEPT ![v] = c[2]]
+            /\ UNCHANGED osnap
+            /\ IF c[1] \/ x.old
+               THEN /\ UNCHANGED <<up, mpc, offs, dirty, flag, ocnt, ctxs, dpc>>
+                    /\ Emit(<<SentEv(v, x), PushedEv(v)>>)
+               ELSE IF ~InSnap(v, x.q) THEN UNCHANGED <<offs, dirty, flag, ocnt, ctxs, dpc>> /\ Die(<<SentEv(v, x)>>)
+               ELSE IF oclosed[v]                      \* sendOrSkip drops it; the counter still moves (l.210)
+               THEN /\ ocnt' = [ocnt EXCEPT ![v] = Bump(@, x.k)]
+                    /\ UNCHANGED <<up, mpc, offs, dirty, flag, ctxs, dpc>>
+                    /\ Emit(<<SentEv(v, x), PushedEv(v)>>)
+               ELSE IF Reserved(x)                     \* stream.go waitAndForward l.118-121
+               THEN /\ ocnt' = [ocnt EXCEPT ![v] = Bump(@, x.k)]
+                    /\ SetOffset(v, f, FALSE)
+                    /\ UNCHANGED <<up, mpc, ctxs, dpc>>
+                    /\ Emit(<<SentEv(v, x)>> \o TrackEvs(v, f) \o <<PushedEv(v)>>)
+               ELSE /\ ctxs' = Append(ctxs, [vb |-> v, off |-> f])
+                    /\ UNCHANGED <<up, mpc, offs, dirty, flag>>
+                    /\ LET c0 == [ev |-> "Consume", vb |-> v, k |-> x.k, q |-> x.q, key |-> x.key, off |-> f] IN
+                       IF hold   \* the consumer blocks inside ConsumeEvent: counter not yet bumped
+                       THEN /\ dpc' = [dpc EXCEPT ![v] = x.k] /\ UNCHANGED ocnt
+                            /\ Emit(<<SentEv(v, x), c0>>)
+                       ELSE /\ UNCHANGED dpc /\ ocnt' = [ocnt EXCEPT ![v] = Bump(@, x.k)]
+                            /\ Emit(<<SentEv(v, x), c0, PushedEv(v)>>)
+
+\* ConsumeEvent returns
+ConsRet(v) ==
+  /\ up /\ dpc[v] # "idle" /\ Prompt
+  /\ dpc' = [dpc EXCEPT ![v] = "idle"]
+  /\ ocnt' = [ocnt EXCEPT ![v] = Bump(@, dpc[v])]
+  /\ Emit(<<PushedEv(v)>>)
+  /\ UNCHANGED <<envVars, osnap, ouuid, ocatch, oclosed, oendclosed, strVars, synVars, mpc, dcwc, opener, opc, opened,
+                 live, foleft, clo, spc, sv, rpc, reop>>
 
 \* the consumer acknowledges the i-th context it was handed (stream.go l.128-131)
 Ack(i) ==
-  /\ up /\ ~Busy /\ i \in DOMAIN ctxs /\ nacks < MaxAcks
-  /\ nacks' = nacks + 1
-  /\ UNCHANGED <<up, ncrash, nsaves, wire, store, obsvVars, rng, open, opened, ctxs, thrVars>>
+  /\ up /\ ~Busy /\ i \in DOMAIN ctxs /\ cnt.acks < MaxAcks
+  /\ cnt' = [cnt EXCEPT !.acks = @ + 1]
+  /\ UNCHANGED <<up, slog, wire, store, info, obsvVars, rng, open, obsNil, active, balancing, cwc, finClose, finEnd,
+                 rebalances, stopped, ctxs, synVars, thrVars>>
   /\ LET c == ctxs[i] IN
      /\ SetOD(c.vb, c.off, TRUE)
      /\ flag' = TRUE
-     /\ EmitS(<<[ev |-> "Ack", vb |-> c.vb, off |-> c.off]>> \o TrackEvs(c.vb, c.off))
+     /\ Emit(<<[ev |-> "Ack", vb |-> c.vb, off |-> c.off]>> \o TrackEvs(c.vb, c.off))
 
-\* ---------------------------------------------------------------------------
-\* checkpoint.Save (checkpoint.go) by driver thread t.
-\*   Before the fix of F1 ("F1" \in Bugs) the protocol was
-\*     read (offsets, dirtyOffsets, flag) -> flag down: return -> LOCK -> dump the captured maps ->
-\*     metadata.Save -> on success UnmarkDirtyOffsets (flag down, NEW empty dirty map) -> unlock
-\*   which wipes the mark of an acknowledgement that lands while metadata.Save is in flight.
-\*   Since the fix it is
-\*     LOCK -> read -> flag down: return -> UnmarkDirtyOffsets -> dump -> metadata.Save ->
-\*     on failure MarkDirtyOffsets(dumped dirty set) -> unlock
+-----------------------------------------------------------------------------
+(* checkpoint.Save (checkpoint.go) by thread t (a driver thread, or "main" for the final save of      *)
+(* dcp.close).                                                                                        *)
+(*   Before the fix of F1 ("F1" \in Bugs) the protocol was                                            *)
+(*     read (offsets, dirtyOffsets, flag) -> flag down: return -> LOCK -> dump the captured maps ->   *)
+(*     metadata.Save -> on success UnmarkDirtyOffsets (flag down, NEW empty dirty map) -> unlock      *)
+(*   which wipes the mark of an acknowledgement that lands while metadata.Save is in flight.          *)
+(*   Since the fix it is                                                                              *)
+(*     LOCK -> read -> flag down: return -> UnmarkDirtyOffsets -> dump -> metadata.Save ->            *)
+(*     on failure MarkDirtyOffsets(dumped dirty set) -> unlock                                        *)
+\* (the final save of dcp.close is not bracketed: the driver has no wrapper around it)
+SaveCallEvs(t) == IF t = "main" THEN <<>> ELSE <<[ev |-> "SaveCall", t |-> t]>>
+SaveRetEvs(t) == IF t = "main" THEN <<>> ELSE <<[ev |-> "SaveRet", t |-> t]>>
+
+\* effect of Save() being entered by t: sets spc', sv'.  g = generation of the checkpoint object
+EarlyReturn == "F1" \in Bugs /\ ~flag
+SaveEnter(t, g) ==
+  IF EarlyReturn
+  THEN UNCHANGED <<spc, sv>>
+  ELSE /\ spc' = [spc EXCEPT ![t] = "want"]      \* parked at vhook "save.prelock"
+       /\ sv' = [sv EXCEPT ![t] = [SaverInit EXCEPT !.gen = g]]
+SaveEnterEvs(t) == IF EarlyReturn THEN SaveCallEvs(t) \o SaveRetEvs(t) ELSE SaveCallEvs(t)
+
 SaveStart(t) ==
-  /\ up /\ ~Busy /\ spc[t] = "idle" /\ nsaves < MaxSaves /\ mpc = "idle"
-  /\ nsaves' = nsaves + 1
-  /\ UNCHANGED <<up, ncrash, nacks, wire, store, obsvVars, strVars, mpc, slock>>
-  /\ IF "F1" \in Bugs /\ ~flag
-     THEN /\ UNCHANGED <<spc, sv>>
-          /\ Emit(<<[ev |-> "SaveCall", t |-> t], [ev |-> "SaveRet", t |-> t]>>)
-     ELSE /\ spc' = [spc EXCEPT ![t] = "want"]      \* parked at vhook "save.prelock"
-          /\ sv' = [sv EXCEPT ![t] = SaverInit]
-          /\ Emit(<<[ev |-> "SaveCall", t |-> t]>>)
+  /\ up /\ ~Busy /\ t \in Savers /\ spc[t] = "idle" /\ cnt.saves < MaxSaves /\ cgen > 0 /\ mpc = "running"
+  /\ cnt' = [cnt EXCEPT !.saves = @ + 1]
+  /\ SaveEnter(t, cgen)
+  /\ Emit(SaveEnterEvs(t))
+  /\ UNCHANGED <<up, slog, wire, store, info, obsvVars, strVars, synVars, mpc, dcwc, opener, opc, opened, live, foleft,
+                 clo, rpc, dpc, reop>>
 
-SaveLock(t) ==
-  /\ up /\ ~Busy /\ spc[t] = "want" /\ slock = "free"
-  /\ UNCHANGED <<envVars, obsvVars, offs, rng, open, opened, ctxs, mpc>>
-  /\ IF "F1" \in Bugs
-     THEN LET om == IF sv[t].olive THEN offs ELSE sv[t].osnapm
-              dm == IF sv[t].dlive THEN dirty ELSE sv[t].dsnapm
-          IN /\ slock' = t /\ spc' = [spc EXCEPT ![t] = "storing"]
-             /\ sv' = [sv EXCEPT ![t].dump = om, ![t].ddirty = dm, ![t].wr = {}]
-             /\ UNCHANGED <<dirty, flag>>
-             /\ Emit(<<[ev |-> "SaveBegin", t |-> t, dump |-> om, dirty |-> SortedSeq(dm)]>>)
-     ELSE IF ~flag
-     THEN /\ spc' = [spc EXCEPT ![t] = "idle"]
-          /\ UNCHANGED <<slock, sv, dirty, flag>>
-          /\ Emit(<<[ev |-> "SaveRet", t |-> t]>>)
-     ELSE /\ slock' = t /\ spc' = [spc EXCEPT ![t] = "storing"]
-          /\ sv' = [sv EXCEPT ![t].dump = offs, ![t].ddirty = dirty, ![t].wr = {}]
-          /\ flag' = FALSE /\ dirty' = {}
-          /\ Emit(<<[ev |-> "SaveBegin", t |-> t, dump |-> offs, dirty |-> SortedSeq(dirty)]>>)
+SaveLockBody(t) ==
+  IF "F1" \in Bugs
+  THEN LET om == IF sv[t].olive THEN offs ELSE sv[t].osnapm
+           dm == IF sv[t].dlive THEN dirty ELSE sv[t].dsnapm
+       IN /\ slock' = slock \cup {sv[t].gen} /\ spc' = [spc EXCEPT ![t] = "storing"]
+          /\ sv' = [sv EXCEPT ![t].dump = om, ![t].ddirty = dm, ![t].wr = {}]
+          /\ UNCHANGED <<dirty, flag>>
+          /\ Emit(<<[ev |-> "SaveBegin", t |-> t, dump |-> om, dirty |-> SortedSeq(dm)]>>)
+  ELSE /\ slock' = slock \cup {sv[t].gen} /\ spc' = [spc EXCEPT ![t] = "storing"]
+       /\ sv' = [sv EXCEPT ![t].dump = offs, ![t].ddirty = dirty, ![t].wr = {}]
+       /\ flag' = FALSE /\ dirty' = {}
+       /\ Emit(<<[ev |-> "SaveBegin", t |-> t, dump |-> offs, dirty |-> SortedSeq(dirty)]>>)
 
 \* the backend makes the checkpoint of one dirty vb durable (one write per dirty vb, any order)
 StoreWrite(t, v) ==
-  /\ up /\ spc[t] = "storing" /\ v \in sv[t].ddirty \ sv[t].wr /\ sv[t].dump[v] # NoOff
+  /\ up /\ spc[t] = "storing" /\ v \in sv[t].ddirty \ sv[t].wr /\ sv[t].dump[v] # NoOff /\ Prompt
   /\ store' = [store EXCEPT ![v] = sv[t].dump[v]]
   /\ sv' = [sv EXCEPT ![t].wr = @ \cup {v}]
   /\ Emit(<<[ev |-> "StoreWrite", t |-> t, vb |-> v, off |-> sv[t].dump[v]]>>)
-  /\ UNCHANGED <<up, ncrash, nsaves, nacks, wire, obsvVars, strVars, mpc, spc, slock>>
+  /\ UNCHANGED <<up, slog, wire, info, cnt, obsvVars, strVars, synVars, mpc, dcwc, opener, opc, opened, live, foleft, clo,
+                 spc, rpc, dpc, reop>>
 
 Writable(t) == {v \in sv[t].ddirty : sv[t].dump[v] # NoOff}
 
+SaveRetBody(t, ok) ==   \* flag', dirty', sv' after metadata.Save returned
+  IF "F1" \in Bugs
+  THEN IF ok
+       THEN /\ flag' = FALSE /\ dirty' = {}
+            \* savers that captured the old dirty map keep it
+            /\ sv' = [u \in SaveThreads |-> IF spc[u] = "want" /\ sv[u].dlive
+                                            THEN [sv[u] EXCEPT !.dlive = FALSE, !.dsnapm = dirty] ELSE sv[u]]
+       ELSE UNCHANGED <<flag, dirty, sv>>
+  ELSE IF ok THEN UNCHANGED <<flag, dirty, sv>>
+       ELSE /\ flag' = (flag \/ sv[t].ddirty # {}) /\ dirty' = dirty \cup sv[t].ddirty /\ UNCHANGED sv
+
+-----------------------------------------------------------------------------
+(* stream.Close (l.414-450), called by dcp.close (main thread, closeWithCancel = TRUE only for a      *)
+(* signal) or by stream.Rebalance (a notification thread, FALSE)                                      *)
+
+ClosableVbs == {v \in VB : offs[v] # NoOff}
+CloseBeginEvs == <<CB("BeforeStreamStop")>> \o [i \in 1..Cardinality(ClosableVbs) |->
+                     [ev |-> "CloseReq", vb |-> SortedSeq(ClosableVbs)[i]]]
+
+\* timer armed by Rebalance after its Close (l.302-308)
+ArmRebalance(ts) == Append(ts, [fn |-> "rebalance", st |-> "armed"])
+
+\* rest of Close once every CloseStream returned (l.434-449), then the continuation of thread who:
+\*  - notification thread: AfterRebalanceStart, arm the timer, return (the rebalance lock stays held)
+\*  - main: rest of dcp.close: DcpClose, Close of the client; Start returns
+\* assigns oendclosed obsNil offs dirty open tokC tokE waits wpark clo mpc timers cur rpc emitv
+CloseTail(who, pre) ==
+  LET p == IF finEnd THEN <<tokC, tokE, waits, wpark, FALSE>> ELSE Put("close", tokC, tokE, waits, wpark) IN
+  /\ oendclosed' = [v \in VB |-> TRUE] /\ obsNil' = TRUE
+  /\ offs' = [v \in VB |-> NoOff] /\ dirty' = {} /\ open' = FALSE
+  /\ tokC' = p[1] /\ tokE' = p[2] /\ waits' = p[3] /\ wpark' = p[4]
+  /\ clo' = NoClose
+  /\ IF who = "main"
+     THEN /\ mpc' = "closed"
+          /\ Emit(pre \o <<CB("AfterStreamStop"), [ev |-> "DcpClose"], [ev |-> "ClientClose"], [ev |-> "CloseReturn"]>>)
+          /\ UNCHANGED <<timers, cur, rpc>>
+     ELSE /\ rpc' = [rpc EXCEPT ![who] = "idle"]
+          /\ timers' = ArmRebalance(timers) /\ cur' = Len(timers) + 1
+          /\ Emit(pre \o <<CB("AfterStreamStop"), CB("AfterRebalanceStart")>>)
+          /\ UNCHANGED mpc
+
+\* CloseStream of v returns (the server will answer with STREAM_END(closed), see End)
+CloseRet(v) ==
+  /\ up /\ clo.on /\ v \in clo.left /\ Prompt
+  /\ UNCHANGED <<up, slog, wire, store, info, cnt, osnap, ouuid, ocatch, oclosed, ocnt, flag, rng, active, balancing, cwc,
+                 finClose, finEnd, rebalances, stopped, ctxs, rlock, slock, cgen, dcwc, opener, opc, opened, live, foleft,
+                 spc, sv, dpc, reop>>
+  /\ IF clo.left = {v}
+     THEN CloseTail(clo.who, <<>>)
+     ELSE /\ clo' = [clo EXCEPT !.left = @ \ {v}]
+          /\ Emit(<<>>)
+          /\ UNCHANGED <<oendclosed, obsNil, offs, dirty, open, tokC, tokE, waits, wpark, timers, cur, mpc, rpc>>
+
+-----------------------------------------------------------------------------
+(* dcp.Close() / SIGTERM, or the stream stopped on its own: the main thread leaves its select and     *)
+(* runs dcp.close (dcp.go l.195-233): discovery close, final Save (auto), unsubscribe, stream.Close,  *)
+(* DcpClose, Close                                                                                    *)
+
+\* main enters stream.Close(cancel).  With the stream already closed by a rebalance: before the fix of
+\* F2 a nil-pointer panic; since the fix the pending re-open timer is stopped and Close returns.
+\* assigns up mpc cwc oclosed clo timers emitv
+MainStreamClose(pre, cancel) ==
+  /\ cwc' = cancel
+  /\ IF obsNil
+     THEN IF "F2" \in Bugs
+          THEN /\ Die(pre \o <<CB("BeforeStreamStop")>>)
+               /\ UNCHANGED <<oclosed, clo, timers>>
+          ELSE /\ mpc' = "closed" /\ UNCHANGED <<up, oclosed, clo>>
+               /\ timers' = IF cur > 0 /\ timers[cur].st = "armed"
+                            THEN [timers EXCEPT ![cur].st = "stopped"] ELSE timers
+               /\ Emit(pre \o <<[ev |-> "DcpClose"], [ev |-> "ClientClose"], [ev |-> "CloseReturn"]>>)
+     ELSE /\ UNCHANGED <<up, timers>>
+          /\ oclosed' = [v \in VB |-> TRUE]
+          /\ mpc' = "closing" /\ clo' = [on |-> TRUE, who |-> "main", left |-> ClosableVbs]
+          /\ Emit(pre \o CloseBeginEvs)
+
+\* main runs dcp.close up to its first gate.  assigns spc sv up mpc cwc oclosed clo timers emitv
+MainCloseBegin(pre, cancel) ==
+  IF AutoCkpt /\ ~EarlyReturn
+  THEN /\ SaveEnter("main", cgen) /\ mpc' = "finalsave"
+       /\ Emit(pre \o SaveCallEvs("main"))
+       /\ UNCHANGED <<up, cwc, oclosed, clo, timers>>
+  ELSE /\ UNCHANGED <<spc, sv>>
+       /\ MainStreamClose(pre \o (IF AutoCkpt THEN SaveCallEvs("main") \o SaveRetEvs("main") ELSE <<>>), cancel)
+
+\* Close() is called
+CloseCall ==
+  /\ up /\ mpc = "running" /\ ~Busy /\ AllowClose /\ ~stopped /\ ~clo.on /\ reop = {}
+  /\ (GapReopen \/ opener # "timer")
+  /\ dcwc' = TRUE
+  /\ UNCHANGED <<slog, wire, store, info, cnt, osnap, ouuid, ocatch, oendclosed, ocnt, offs, dirty, flag, rng, open, obsNil,
+                 active, balancing, finClose, finEnd, rebalances, stopped, ctxs, tokC, tokE, waits, wpark, cur, rlock, slock,
+                 cgen, opener, opc, opened, live, foleft, rpc, dpc, reop>>
+  /\ MainCloseBegin(<<[ev |-> "CloseCall"]>>, TRUE)
+
+\* save.prelock -> lock -> ... (see the protocol above); a saver whose flag is down returns
+SaveLock(t) ==
+  /\ up /\ ~Busy /\ spc[t] = "want" /\ sv[t].gen \notin slock
+  /\ (t = "main" => ~clo.on /\ (GapReopen \/ opener # "timer"))
+  /\ UNCHANGED <<slog, wire, store, info, cnt, osnap, ouuid, ocatch, oendclosed, ocnt, offs, rng, open, obsNil, active,
+                 balancing, finClose, finEnd, rebalances, stopped, ctxs, tokC, tokE, waits, wpark, cur, rlock, cgen,
+                 dcwc, opener, opc, opened, live, foleft, rpc, dpc, reop>>
+  /\ IF "F1" \notin Bugs /\ ~flag
+     THEN /\ UNCHANGED <<slock, sv, dirty, flag>>
+          /\ spc' = [spc EXCEPT ![t] = "idle"]
+          /\ IF t = "main"
+             THEN MainStreamClose(SaveRetEvs(t), dcwc)
+             ELSE /\ Emit(SaveRetEvs(t)) /\ UNCHANGED <<up, mpc, cwc, oclosed, clo, timers>>
+     ELSE /\ SaveLockBody(t)
+          /\ UNCHANGED <<up, mpc, cwc, oclosed, clo, timers>>
+
 \* metadata.Save returns, the rest of Save runs, Save returns
 SaveRet(t, ok) ==
-  /\ up /\ spc[t] = "storing"
+  /\ up /\ spc[t] = "storing" /\ Prompt
   /\ (ok => sv[t].wr = Writable(t))
   /\ (~ok => FailSaves)
+  /\ (t = "main" => ~clo.on /\ (GapReopen \/ opener # "timer"))
   /\ spc' = [spc EXCEPT ![t] = "idle"]
-  /\ slock' = "free"
-  /\ UNCHANGED <<envVars, obsvVars, offs, rng, open, opened, ctxs, mpc>>
-  /\ IF "F1" \in Bugs
-     THEN IF ok
-          THEN /\ flag' = FALSE /\ dirty' = {}
-               \* savers that captured the old dirty map keep it
-               /\ sv' = [u \in Savers |-> IF spc[u] = "want" /\ sv[u].dlive
-                                          THEN [sv[u] EXCEPT !.dlive = FALSE, !.dsnapm = dirty] ELSE sv[u]]
-          ELSE UNCHANGED <<flag, dirty, sv>>
-     ELSE IF ok THEN UNCHANGED <<flag, dirty, sv>>
-          ELSE /\ flag' = (flag \/ sv[t].ddirty # {}) /\ dirty' = dirty \cup sv[t].ddirty /\ UNCHANGED sv
-  /\ EmitS(<<[ev |-> "SaveEnd", t |-> t, ok |-> ok], [ev |-> "SaveRet", t |-> t]>>)
+  /\ slock' = slock \ {sv[t].gen}
+  /\ UNCHANGED <<slog, wire, store, info, cnt, osnap, ouuid, ocatch, oendclosed, ocnt, offs, rng, open, obsNil, active,
+                 balancing, finClose, finEnd, rebalances, stopped, ctxs, tokC, tokE, waits, wpark, cur, rlock, cgen,
+                 dcwc, opener, opc, opened, live, foleft, rpc, dpc, reop>>
+  /\ SaveRetBody(t, ok)
+  /\ LET evs == <<[ev |-> "SaveEnd", t |-> t, ok |-> ok]>> \o SaveRetEvs(t) IN
+     IF t = "main" THEN MainStreamClose(evs, dcwc)
+     ELSE /\ Emit(evs) /\ UNCHANGED <<up, mpc, cwc, oclosed, clo, timers>>
 
-\* ---------------------------------------------------------------------------
+-----------------------------------------------------------------------------
+(* stream.Rebalance (l.278-309) called by a notification thread t \in {"bus","api"} or re-armed on a  *)
+(* timer ("tmr"); stream.rebalance (l.311-323) called by the timer                                    *)
+
+\* the check at the top of Rebalance.  Since the fix of F5 "balancing" alone decides, and it is set
+\* here, atomically with the test; before: "balancing /\ timer # nil", and balancing was set after the lock.
+TopBranchA == IF "F5" \in Bugs THEN balancing /\ cur > 0 ELSE balancing
+\* the branch that only moves the pending re-open: Stop()==true: Reset ; else a new timer for Rebalance
+PostponedTimers ==
+  IF cur > 0 /\ timers[cur].st = "armed" THEN timers
+  ELSE IF cur > 0 THEN Append(timers, [fn |-> "Rebalance", st |-> "armed"])
+  ELSE timers
+PostponedCur == IF cur > 0 /\ timers[cur].st # "armed" THEN Len(timers) + 1 ELSE cur
+
+\* Rebalance() is entered by t: assigns timers cur rpc balancing
+RebalanceEnter(t, ts) ==
+  IF TopBranchA
+  THEN /\ timers' = (IF cur > 0 /\ ts[cur].st = "armed" THEN ts
+                     ELSE IF cur > 0 THEN Append(ts, [fn |-> "Rebalance", st |-> "armed"]) ELSE ts)
+       /\ cur' = (IF cur > 0 /\ ts[cur].st # "armed" THEN Len(ts) + 1 ELSE cur)
+       /\ UNCHANGED <<rpc, balancing>>
+  ELSE /\ rpc' = [rpc EXCEPT ![t] = "want"]      \* parked at vhook rb.prelock
+       /\ balancing' = IF "F5" \in Bugs THEN balancing ELSE TRUE
+       /\ timers' = ts /\ UNCHANGED cur
+
+\* a membership change is published (bus) or GET /rebalance is served (api): the listener calls Rebalance
+Notify(t, i) ==
+  /\ up /\ ~Busy /\ mpc = "running" /\ t \in {"bus", "api"} /\ rpc[t] = "idle" /\ cnt.notify < MaxNotify
+  /\ i \in Infos
+  /\ (t = "api" => open /\ i = info)             \* GET /rebalance: only while the stream is open, no new membership
+  /\ (t = "bus" => i # info)                    \* a repeated membership is not announced (C10/C11)
+  /\ info' = i
+  /\ cnt' = [cnt EXCEPT !.notify = @ + 1]
+  /\ UNCHANGED <<up, slog, wire, store, obsvVars, offs, dirty, flag, rng, open, obsNil, active, cwc, finClose, finEnd,
+                 rebalances, stopped, ctxs, tokC, tokE, waits, wpark, rlock, slock, cgen, mpc, dcwc, opener, opc, opened,
+                 live, foleft, clo, spc, sv, dpc, reop>>
+  /\ RebalanceEnter(t, timers)
+  /\ Emit(<<[ev |-> "Notify", src |-> t, member |-> i[1], total |-> i[2]]>>)
+
+\* rb.prelock -> rebalanceLock.Lock -> BeforeRebalanceStart -> Close(false) up to the CloseStream gates
+RbLock(t) ==
+  /\ up /\ ~Busy /\ rpc[t] = "want" /\ ~rlock /\ ~clo.on /\ mpc \in {"running", "closed"}
+  /\ reop = {}                        \* not explored: a rebalance closing the stream while a re-open request is outstanding
+  /\ rlock' = TRUE
+  /\ UNCHANGED <<up, slog, wire, store, info, cnt, osnap, ouuid, ocatch, oendclosed, ocnt, flag, rng, active, finClose,
+                 finEnd, rebalances, stopped, ctxs, slock, cgen, mpc, dcwc, opener, opc, opened, live, foleft, spc, sv, dpc,
+                 reop, offs, dirty, open, obsNil, tokC, tokE, waits, wpark>>
+  /\ IF "F5" \in Bugs /\ balancing
+     THEN \* l.295: already balancing: no Close, arm another re-open
+          /\ rpc' = [rpc EXCEPT ![t] = "idle"]
+          /\ timers' = ArmRebalance(timers) /\ cur' = Len(timers) + 1
+          /\ Emit(<<CB("BeforeRebalanceStart"), CB("AfterRebalanceStart")>>)
+          /\ UNCHANGED <<oclosed, balancing, cwc, clo>>
+     ELSE IF obsNil   \* Close on an already closed stream: nil-pointer panic on the notification goroutine
+     THEN /\ Die(<<CB("BeforeRebalanceStart"), CB("BeforeStreamStop")>>)
+          /\ UNCHANGED <<rpc, timers, cur, oclosed, balancing, cwc, clo>>
+     ELSE /\ balancing' = TRUE /\ cwc' = FALSE
+          /\ oclosed' = [v \in VB |-> TRUE]
+          /\ rpc' = [rpc EXCEPT ![t] = "closing"]
+          /\ clo' = [on |-> TRUE, who |-> t, left |-> ClosableVbs]
+          /\ Emit(<<CB("BeforeRebalanceStart")>> \o CloseBeginEvs)
+          /\ UNCHANGED <<timers, cur>>
+
+\* a Close with nothing to close continues at once (cannot happen while offsets are loaded)
+CloseEmpty ==
+  /\ up /\ clo.on /\ clo.left = {} /\ Prompt
+  /\ UNCHANGED <<up, slog, wire, store, info, cnt, osnap, ouuid, ocatch, oclosed, ocnt, flag, rng, active, balancing, cwc,
+                 finClose, finEnd, rebalances, stopped, ctxs, rlock, slock, cgen, dcwc, opener, opc, opened, live, foleft,
+                 spc, sv, dpc, reop>>
+  /\ CloseTail(clo.who, <<>>)
+
+\* a timer fires
+TimerFire(i) ==
+  /\ up /\ ~Busy /\ i \in DOMAIN timers /\ timers[i].st = "armed"
+  /\ IF timers[i].fn = "rebalance"
+     THEN \* stream.rebalance: BeforeRebalanceEnd, Open() up to metadata.Load
+          /\ (GapReopen \/ mpc = "running")
+          /\ (\A t \in SaveThreads : spc[t] = "idle")   \* not explored: a Save call that spans the re-open (it would use the
+                                                       \* save lock of the previous checkpoint object)
+          /\ timers' = [timers EXCEPT ![i].st = "fired"]
+          /\ OpenBegin("timer")
+          /\ Emit(<<CB("BeforeRebalanceEnd")>> \o OpenBeginEvs)
+          /\ UNCHANGED <<up, slog, wire, store, info, cnt, obsvVars, offs, dirty, flag, open, obsNil, balancing, cwc,
+                         rebalances, stopped, ctxs, tokC, tokE, waits, wpark, cur, rlock, slock, mpc, dcwc, live, foleft,
+                         clo, spc, sv, rpc, dpc, reop>>
+     ELSE \* stream.Rebalance on the timer goroutine (re-armed while a rebalance was in progress)
+          /\ rpc["tmr"] = "idle"
+          /\ RebalanceEnter("tmr", [timers EXCEPT ![i].st = "fired"])
+          /\ Emit(<<>>)
+          /\ UNCHANGED <<up, slog, wire, store, info, cnt, obsvVars, offs, dirty, flag, rng, open, obsNil, active, cwc,
+                         finClose, finEnd, rebalances, stopped, ctxs, tokC, tokE, waits, wpark, rlock, slock, cgen, mpc, dcwc,
+                         opener, opc, opened, live, foleft, clo, spc, sv, dpc, reop>>
+
+-----------------------------------------------------------------------------
+(* stream ends (observer.End l.273-282, stream.listenEnd l.190-220)                                   *)
+EndEv(v, c) == [ev |-> "EndSent", vb |-> v, cause |-> c]
+
+\* the server ends the stream of v with cause c ("closed" follows a CloseStream; "ok" is the clean end)
+End(v, c) ==
+  /\ up /\ ~Busy /\ v \in live /\ dpc[v] = "idle" /\ v \notin reop /\ wire[v] = <<>>
+  /\ (c # "closed" => cnt.ends < MaxEnds /\ c \in EndCauses /\ open /\ ~clo.on /\ ~balancing /\ mpc = "running")
+  /\ (c = "closed" => (clo.on /\ v \notin clo.left) \/ (obsNil /\ ~open))
+  /\ cnt' = [cnt EXCEPT !.ends = IF c = "closed" THEN @ ELSE @ + 1]
+  /\ live' = live \ {v}
+  /\ UNCHANGED <<up, slog, wire, store, info, obsvVars, offs, dirty, flag, rng, open, obsNil, balancing, cwc, finClose,
+                 finEnd, rebalances, stopped, ctxs, timers, cur, rlock, slock, cgen, mpc, dcwc, opener, opc, opened, foleft,
+                 clo, spc, sv, rpc, dpc>>
+  /\ IF oendclosed[v] \/ obsNil
+     THEN /\ Emit(<<EndEv(v, c)>>) /\ UNCHANGED <<active, tokC, tokE, waits, wpark, reop>>
+     ELSE IF ~cwc /\ c \in TransientCauses
+     THEN \* go reopenStream(vb): the goroutine reaches client.OpenStream with the current position
+          /\ reop' = reop \cup {v}
+          /\ Emit(<<EndEv(v, c), [ev |-> "OpenReq", vb |-> v, off |-> offs[v], end |-> EndOf(v)]>>)
+          /\ UNCHANGED <<active, tokC, tokE, waits, wpark>>
+     ELSE LET p == IF active = 1 /\ ~finClose THEN Put("end", tokC, tokE, waits, wpark)
+                   ELSE <<tokC, tokE, waits, wpark, FALSE>> IN
+          /\ active' = active - 1
+          /\ tokC' = p[1] /\ tokE' = p[2] /\ waits' = p[3] /\ wpark' = p[4]
+          /\ Emit(<<EndEv(v, c)>>)
+          /\ UNCHANGED reop
+
+\* the re-open request of v is answered
+ReopenRet(v, ok) ==
+  /\ up /\ v \in reop /\ ok /\ Prompt
+  \* failing re-opens (1 s back-off, panic after 5) are explored by the C15 fault driver
+  /\ reop' = reop \ {v}
+  /\ live' = live \cup {v}
+  /\ ouuid' = [ouuid EXCEPT ![v] = FoUuid[v]]
+  /\ wire' = [wire EXCEPT ![v] = WireFrom(slog[v], offs[v].seq, <<>>)]
+  /\ Emit(<<OpenRetEv(v, TRUE, FALSE, 0)>>)
+  /\ UNCHANGED <<up, slog, store, info, cnt, osnap, ocatch, oclosed, oendclosed, ocnt, strVars, synVars, mpc, dcwc, opener,
+                 opc, opened, foleft, clo, spc, sv, rpc, dpc>>
+
+\* a wait goroutine parked at wait.close / wait.end finishes (l.403-411); when it closes the stop
+\* channel the main thread leaves its select and runs dcp.close up to its first gate
+RECURSIVE RemoveFirst(_, _)
+RemoveFirst(sq, k) == IF sq = <<>> THEN <<>> ELSE IF Head(sq) = k THEN Tail(sq) ELSE <<Head(sq)>> \o RemoveFirst(Tail(sq), k)
+WaitFin(k) ==
+  /\ up /\ k \in SeqToSet(wpark) /\ ~FocusBusy
+  /\ wpark' = RemoveFirst(wpark, k)
+  /\ finClose' = (IF k = "close" THEN TRUE ELSE finClose)
+  /\ finEnd' = (IF k = "end" THEN TRUE ELSE finEnd)
+  /\ UNCHANGED <<slog, wire, store, info, cnt, osnap, ouuid, ocatch, oendclosed, ocnt, offs, dirty, flag, rng, open, obsNil,
+                 active, balancing, rebalances, ctxs, tokC, tokE, waits, cur, rlock, slock, cgen, dcwc, opener, opc,
+                 opened, live, foleft, rpc, dpc, reop>>
+  /\ IF balancing
+     THEN /\ Emit(<<>>) /\ UNCHANGED <<up, mpc, stopped, spc, sv, cwc, oclosed, clo, timers>>
+     ELSE IF stopped                                 \* close of a closed channel
+     THEN /\ Die(<<>>) /\ UNCHANGED <<stopped, spc, sv, cwc, oclosed, clo, timers>>
+     ELSE /\ stopped' = TRUE
+          /\ IF mpc = "running" /\ ~clo.on
+             THEN MainCloseBegin(<<[ev |-> "Stopped"]>>, dcwc)
+             ELSE /\ Emit(<<[ev |-> "Stopped"]>>) /\ UNCHANGED <<up, mpc, spc, sv, cwc, oclosed, clo, timers>>
+
+-----------------------------------------------------------------------------
 Crash ==
-  /\ up /\ ncrash < MaxCrash /\ mpc = "idle"
-  /\ up' = FALSE /\ ncrash' = ncrash + 1 /\ mpc' = "off"
+  /\ up /\ cnt.crash < MaxCrash /\ mpc = "running" /\ ~Busy
+  /\ up' = FALSE /\ mpc' = "off" /\ cnt' = [cnt EXCEPT !.crash = @ + 1]
   /\ Emit(<<[ev |-> "Crash"]>>)
-  /\ UNCHANGED <<nsaves, nacks, wire, store, obsvVars, strVars, spc, sv, slock>>
+  /\ UNCHANGED <<slog, wire, store, info, obsvVars, strVars, synVars, dcwc, opener, opc, opened, live, foleft, clo, spc, sv,
+                 rpc, dpc, reop>>
 
-\* ---------------------------------------------------------------------------
+-----------------------------------------------------------------------------
 Step(l) ==
   CASE l.a = "Boot"       -> Boot
-    [] l.a = "LoadRet"    -> LoadRet
-    [] l.a = "SeqNosRet"  -> SeqNosRet
-    [] l.a = "OpenRet"    -> OpenRet(l.vb)
-    [] l.a = "Push"       -> Push(l.vb)
+    [] l.a = "LoadRet"    -> LoadRet(l.ok)
+    [] l.a = "SeqNosRet"  -> SeqNosRet(l.ok)
+    [] l.a = "FoLogRet"   -> FoLogRet(l.ok)
+    [] l.a = "OpenRet"    -> OpenRet(l.vb, l.res, l.r)
+    [] l.a = "Push"       -> Push(l.vb, l.x, l.hold)
+    [] l.a = "ConsRet"    -> ConsRet(l.vb)
     [] l.a = "Ack"        -> Ack(l.i)
     [] l.a = "SaveStart"  -> SaveStart(l.t)
     [] l.a = "SaveLock"   -> SaveLock(l.t)
     [] l.a = "StoreWrite" -> StoreWrite(l.t, l.vb)
     [] l.a = "SaveRet"    -> SaveRet(l.t, l.ok)
+    [] l.a = "CloseCall"  -> CloseCall
+    [] l.a = "CloseRet"   -> CloseRet(l.vb)
+    [] l.a = "CloseEmpty" -> CloseEmpty
+    [] l.a = "Notify"     -> Notify(l.t, <<l.member, l.total>>)
+    [] l.a = "RbLock"     -> RbLock(l.t)
+    [] l.a = "TimerFire"  -> TimerFire(l.i)
+    [] l.a = "End"        -> End(l.vb, l.cause)
+    [] l.a = "ReopenRet"  -> ReopenRet(l.vb, l.ok)
+    [] l.a = "WaitFin"    -> WaitFin(l.k)
     [] l.a = "Crash"      -> Crash
 
 MaxCtx == 6
+MaxTimers == 4
+Life == MaxNotify > 0 \/ MaxEnds > 0 \/ AllowClose
 Labels ==
-  [a : {"Boot", "LoadRet", "SeqNosRet", "Crash"}]
-  \cup [a : {"OpenRet", "Push"}, vb : VB]
-  \cup [a : {"Ack"}, i : 1..MaxCtx]
-  \cup [a : {"SaveStart", "SaveLock"}, t : Savers]
-  \cup [a : {"StoreWrite"}, t : Savers, vb : VB]
-  \cup [a : {"SaveRet"}, t : Savers, ok : BOOLEAN]
+  [a : {"Boot"}]
+  \cup (IF MaxCrash > 0 THEN [a : {"Crash"}] ELSE {})
+  \cup [a : {"LoadRet", "SeqNosRet"}, ok : IF MaxFail > 0 THEN BOOLEAN ELSE {TRUE}]
+  \cup (IF AutoReset = "latest" THEN [a : {"FoLogRet"}, ok : IF MaxFail > 0 THEN BOOLEAN ELSE {TRUE}] ELSE {})
+  \cup [a : {"OpenRet"}, vb : VB, res : {"ok"}, r : {0}]
+  \cup (IF MaxFail > 0 THEN [a : {"OpenRet"}, vb : VB, res : {"err"}, r : {0}] ELSE {})
+  \cup (IF Rollbacks THEN [a : {"OpenRet"}, vb : VB, res : {"rb"}, r : 0..MaxSeq] ELSE {})
+  \cup (IF Hold THEN [a : {"ConsRet"}, vb : VB] ELSE {})
+  \cup (IF MaxAcks > 0 THEN [a : {"Ack"}, i : 1..MaxCtx] ELSE {})
+  \cup [a : {"SaveStart"}, t : Savers]
+  \cup [a : {"SaveLock"}, t : IF AutoCkpt THEN SaveThreads ELSE Savers]
+  \cup [a : {"StoreWrite"}, t : IF AutoCkpt THEN SaveThreads ELSE Savers, vb : VB]
+  \cup [a : {"SaveRet"}, t : IF AutoCkpt THEN SaveThreads ELSE Savers, ok : IF FailSaves THEN BOOLEAN ELSE {TRUE}]
+  \cup (IF Life THEN [a : {"CloseEmpty"}] \cup [a : {"WaitFin"}, k : {"close", "end"}] \cup [a : {"CloseRet"}, vb : VB]
+                     \cup [a : {"End"}, vb : VB, cause : EndCauses \cup {"closed"}] ELSE {})
+  \cup (IF AllowClose THEN [a : {"CloseCall"}] ELSE {})
+  \cup (IF MaxNotify > 0 THEN [a : {"Notify"}, t : {"bus", "api"}, member : 1..NVB, total : 1..NVB]
+                              \cup [a : {"RbLock"}, t : RbThreads] \cup [a : {"TimerFire"}, i : 1..MaxTimers] ELSE {})
+  \cup (IF MaxEnds > 0 THEN [a : {"ReopenRet"}, vb : VB, ok : {TRUE}] ELSE {})
 
 \* API-visible state, sampled after every step while the process is up (Stream.GetOffsets, IsOpen)
-StateEvs == IF up' THEN <<[ev |-> "State", offsets |-> offs', open |-> open']>> ELSE <<>>
+StateEvs == IF up' THEN <<[ev |-> "State", offsets |-> offs', open |-> open', active |-> active']>> ELSE <<>>
 
 \* where every thread is parked after the step ("thread@gate", library goroutines by gate name)
+OpenerAt(g) == IF opener = "main" THEN "main@" \o g ELSE "lib:" \o g
+LibRb == Cardinality({u \in {"bus", "tmr"} : rpc[u] = "want"})
 Parked ==
-  (IF mpc = "load" THEN {"main@md.Load"} ELSE {})
-  \cup (IF mpc = "seqnos" THEN {"main@GetVBucketSeqNos"} ELSE {})
-  \cup (IF mpc = "opening" THEN {"lib:OpenStream:" \o ToString(v) : v \in VB \ opened} ELSE {})
-  \cup {t \o "@save.prelock" : t \in {u \in Savers : spc[u] = "want"}}
-  \cup {t \o "@md.Save" : t \in {u \in Savers : spc[u] = "storing"}}
+  (IF opc = "load" THEN {OpenerAt("md.Load")} ELSE {})
+  \cup (IF opc = "seqnos" THEN {OpenerAt("GetVBucketSeqNos")} ELSE {})
+  \cup (IF opc = "folog" THEN {OpenerAt("GetFailOverLogs")} ELSE {})
+  \cup (IF opc = "opening" THEN {"lib:OpenStream:" \o ToString(v) : v \in RangeSet \ opened} ELSE {})
+  \cup {"lib:OpenStream:" \o ToString(v) : v \in reop}
+  \cup {t \o "@save.prelock" : t \in {u \in SaveThreads : spc[u] = "want"}}
+  \cup {t \o "@md.Save" : t \in {u \in SaveThreads : spc[u] = "storing"}}
+  \cup {"lib:CloseStream:" \o ToString(v) : v \in (IF clo.on THEN clo.left ELSE {})}
+  \cup (IF rpc["api"] = "want" THEN {"api@rb.prelock"} ELSE {})
+  \cup (IF LibRb >= 1 THEN {"lib:rb.prelock"} ELSE {})
+  \cup (IF LibRb >= 2 THEN {"lib:rb.prelock#2"} ELSE {})
+  \cup {"d" \o ToString(v) \o "@consume" : v \in {w \in VB : dpc[w] # "idle"}}
+  \cup (IF Len(wpark) >= 1 THEN {"lib:wait." \o wpark[1]} ELSE {})
+  \cup (IF Len(wpark) >= 2 THEN {IF wpark[2] = wpark[1] THEN "lib:wait." \o wpark[2] \o "#2" ELSE "lib:wait." \o wpark[2]}
+        ELSE {})
 
 \* projection of the implementation state that the driver compares after every step
 Post == [offsets |-> offs, dirty |-> SortedSeq(dirty), flag |-> flag, store |-> store, open |-> open,
-         parked |-> IF up THEN Parked ELSE {}, up |-> up]
+         parked |-> IF up THEN Parked ELSE {}, up |-> up, active |-> active, rebalances |-> rebalances,
+         stopped |-> stopped]
 
-Next == \E l \in Labels :
+\* the label carries the event for Push: the environment's choice
+PushLabels == {[a |-> "Push", vb |-> v, x |-> x, hold |-> h] : v \in live, x \in UNION {NextEvents(w) : w \in live},
+                                                               h \in (IF Hold THEN BOOLEAN ELSE {FALSE})}
+
+Next == \E l \in Labels \cup PushLabels :
           /\ Step(l)
           /\ obs' = Fold(obs, emitv' \o StateEvs)
           /\ hist' = IF Record THEN Append(hist, [l |-> l, evs |-> emitv' \o StateEvs, post |-> Post'])
@@ -356,8 +846,13 @@ C03 == NoViol(obs, "C03")
 C04 == NoViol(obs, "C04")
 C05 == NoViol(obs, "C05")
 C06 == NoViol(obs, "C06")
+C08 == NoViol(obs, "C08")
 C11 == NoViol(obs, "C11")
+C12 == NoViol(obs, "C12")
+C13 == NoViol(obs, "C13")
 C14 == NoViol(obs, "C14")
+C15 == NoViol(obs, "C15")
+C16 == NoViol(obs, "C16")
 \* the monitor's view of the store is the store
 StoreAgrees == obs.store = store
 =============================================================================
